@@ -40,7 +40,11 @@ Definition connect_circuit (c other : circuit) (tc oc : list label)
              else if right_connect then
                do nl <- map_get o2n l;
                do ops <- map_list o2n (gops g);
-               Ok (set_gates c (dset (gates c) nl (mkGate (gtyp g) ops)), o2n, blk)
+               do old <- match dget (gates c) nl with Some x => Ok x | None => Err PyKeyError end;
+               let c1 := remove_users c (gops old) nl in
+               let c2 := add_users c1 ops nl in
+               Ok (set_gates c2 (dset (gates c2) nl (mkGate (gtyp g) ops)), o2n,
+                   if gtype_beq (gtyp g) INPUT then blk else blk ++ [nl])
              else Ok st) order (c, mapping, []);
   let '(c1, o2n, blk) := st in
   do new_outs <- map_list o2n (filter (fun o => negb (memb o oc)) (outputs other));
@@ -60,7 +64,8 @@ Definition connect_circuit (c other : circuit) (tc oc : list label)
   if negb (leqb name "") then
     do bi <- map_list o2n (inputs other);
     do bo <- map_list o2n (outputs other);
-    Ok (set_blocks c4 (dset (blocks c4) name (mkBlock bi blk bo)))
+    (* gates_for_block is a Python set: canonical order = gate-map order, no duplicates *)
+    Ok (set_blocks c4 (dset (blocks c4) name (mkBlock bi (canonical_block_gates c4 blk) bo)))
   else Ok c4.
 
 Definition connect_left c other tc name ap := connect_circuit c other tc (inputs other) false name ap.
@@ -84,8 +89,10 @@ Definition copy_circuit (c : circuit) : res circuit :=
 
 (* ---- Block.into_circuit ---- *)
 Definition block_into_circuit (c : circuit) (b : block) : res circuit :=
-  let n0 := fold_left (fun n i => emplace_gate_raw n i INPUT []) (binputs b) empty_circuit in
-  do n1 <- foldM (fun n l => do g <- get_gate c l; Ok (emplace_gate_raw n l (gtyp g) (gops g))) (bgates b) n0;
+  let n0 := fold_left (fun n i => if has_gate n i then n else emplace_gate_raw n i INPUT [])
+                      (binputs b) empty_circuit in
+  do n1 <- foldM (fun n l => if has_gate n l then Ok n else
+                            do g <- get_gate c l; Ok (emplace_gate_raw n l (gtyp g) (gops g))) (bgates b) n0;
   do n2 <- set_outputs n1 (boutputs b);
   do _ <- foldM (fun (_ : unit) (kg : label * gate) => check_gates_exist (gops (snd kg)) n2) (gates n2) tt;
   Ok n2.
@@ -132,7 +139,7 @@ Definition replace_subcircuit (c sub : circuit) (imap omap : dict label) (fresh 
               | None => set_users c (dset (users c) (fst kv) (snd kv))
               | Some l => set_users c (dset (users c) (fst kv) (l ++ snd kv))
               end) saved c6 in
-  do _ <- check_circuit_has_no_cycles c7;
+  do _ <- check_circuit_has_no_cycles_from c7 (Some (dkeys (gates c7)));
   Ok c7.
 
 (* ---- converters.py : into_bench ---- *)
@@ -167,11 +174,12 @@ Definition convert_proj (c : circuit) (l : label) (g : gate) (keep : nat) (t : g
   let c1 := remove_user c drop l in
   Ok (set_gates c1 (dset (gates c1) l (mkGate t [kept]))).
 
-Definition convert_const (c : circuit) (l : label) (pfx : string) (fresh : string) (t : gtype)
+Definition convert_const (c : circuit) (l : label) (g : gate) (pfx : string) (fresh : string) (t : gtype)
   : res circuit :=
   do first <- match inputs c with i :: _ => Ok i | [] => Err GateDoesntExistError end;
   let nl := (pfx ++ l ++ fresh)%string in
   do c1 <- emplace_gate c nl NOT [first];
+  let c1 := remove_users c1 (gops g) l in
   let c2 := add_user c1 first l in
   let c3 := add_user c2 nl l in
   let c4 := set_gates c3 (dset (gates c3) l (mkGate t [first; nl])) in
@@ -191,8 +199,8 @@ Definition convert_gate (c : circuit) (l : label) (g : gate) (fresh : string) : 
   | RIFF => convert_proj c l g 1 IFF
   | LNOT => convert_proj c l g 0 NOT
   | RNOT => convert_proj c l g 1 NOT
-  | ALWAYS_TRUE => convert_const c l "new_gate_ALWAYS_TRUE_for_" fresh OR
-  | ALWAYS_FALSE => convert_const c l "new_gate_ALWAYS_FALSE_for_" fresh AND
+  | ALWAYS_TRUE => convert_const c l g "new_gate_ALWAYS_TRUE_for_" fresh OR
+  | ALWAYS_FALSE => convert_const c l g "new_gate_ALWAYS_FALSE_for_" fresh AND
   | _ => Ok c
   end.
 
